@@ -140,8 +140,13 @@ def homogeneous_case(rnd):
     inter = numpy.cumsum([rnd.choice([0.5, 1.0, 1.5]) for _ in range(nlay)])
     v = rnd.choice([1.0, 2.0, 2.5, 3.0])
     X = rnd.choice([1.0, 2.0, 4.0])
-    nrec = rnd.randint(2, 5)
-    rz = numpy.linspace(0.2, 0.9 * inter[-1], nrec)
+    nrec = rnd.randint(1, 5)
+    rz = numpy.linspace(0.2, 0.9 * inter[-1], nrec) if nrec > 1 else numpy.array([rnd.choice([0.25, 0.5]) * inter[-1]])
+    order = rnd.choice(["top-down", "bottom-up", "shuffled"])          # a receiver array is whatever order the channels come in
+    if order == "bottom-up":
+        rz = rz[::-1].copy()
+    elif order == "shuffled":
+        rz = numpy.array(rnd.sample(list(rz), nrec))
     obj = hmclab.Distributions.LayeredRayTracing2D(inter, numpy.array([X]), rz)
     obj.parallel = False
     numpy.random.seed(rnd.randrange(1 << 30))
@@ -154,8 +159,12 @@ def homogeneous_case(rnd):
         if step > 0:
             v = rnd.choice([1.0, 1.5, 2.0, 2.5, 3.0])
             model[:] = v
-        with contextlib.redirect_stdout(io.StringIO()), numpy.errstate(all="ignore"):
-            tts = obj.forward(model)
+        try:
+            with contextlib.redirect_stdout(io.StringIO()), numpy.errstate(all="ignore"), common.time_limit(20):
+                tts = obj.forward(model)
+        except common.TimeLimit:
+            probs.append(("forward-did-not-return", f"homogeneous medium v={v}, offset {X}, receivers {order} {list(rz)} (default tolerance {obj.tolerance}): forward() did not return within 20 s"))
+            break
         ang = numpy.asarray(obj.solved_angles, dtype=float)
         tts = numpy.asarray(tts, dtype=float)
         for k in range(nrec):
@@ -163,7 +172,7 @@ def homogeneous_case(rnd):
                 conv += 1
                 straight = math.hypot(X, rz[k]) / v
                 if abs(tts[k] - straight) > obj.tolerance / v + 1e-12:
-                    probs.append(("homogeneous", f"homogeneous medium v={v} (evaluation {step + 1} on the same object and model array), offset {X}, receiver depth {rz[k]}: "
+                    probs.append(("homogeneous", f"homogeneous medium v={v} (evaluation {step + 1} on the same object and model array), offset {X}, receivers {order} {list(rz)}, receiver depth {rz[k]}: "
                                   f"travel time {tts[k]}, straight line {straight}, tolerance/velocity {obj.tolerance / v}"))
         try:
             tts += 1000.0          # what the caller does with the result must not matter
